@@ -187,7 +187,10 @@ CHECKS = {
         text="Every structural function of the model is defined without access to the record of user special methods "
              "(Model/Special.v); theorems state the boundary of the two functions that did consult them before their "
              "repair (fix: be4b49c, 01faf79): refutation witnesses for always-equal / falsy classes, agreement for "
-             "identity-like classes, identity-only after the repair. The weight is on the tie: the case sets of C01, "
+             "identity-like classes, identity-only after the repair; naturality theorems: for ANY relabelling g of the nodes "
+             "(injective or not - distinct nodes may 'compare equal') each of the five iterators with any filter_/stop/"
+             "maxlevel yields on the relabelled tree the relabelled result, and positions do not depend on labels "
+             "(C17_*_natural, C17_positions_label_free). The weight is on the tie: the case sets of C01, "
              "C04-C09, C12-C15 re-run on node classes with 8 kinds of adversarial, logging special methods must equal "
              "the model and log no invocation.",
         design="6/C17, 7 (D9, D10)", note="thin by nature: which operation dispatches to which special method is CPython's.",
